@@ -268,7 +268,7 @@ fn core_plan(prop: &str, thorough: bool, seed: u64, all_cases: &[CaseRec], tidx:
             let n = if thorough { pairs.len() * 2 } else { pairs.len() };
             for case in cases.iter().copied() {
                 let relevant_edit = case.edits.iter().any(|e| {
-                    (prop == "C05" && e.k.starts_with("foot-")) || (prop == "C07" && e.k == "relabel")
+                    (prop == "C05" && (e.k.starts_with("foot-") || e.k == "extra-seg" || e.k == "dot-insert")) || (prop == "C07" && e.k == "relabel")
                 });
                 if !(case.unaltered || relevant_edit) {
                     continue;
